@@ -831,6 +831,10 @@ def judge_ub(ctx, inst, S):
                 elif kind == "zero-undef":
                     if T.ev(x, env, memo) == 0:
                         raise T.Poison("%s(0) with is_zero_undef at %s" % (opn, loc or "?"))
+                elif kind == "divq":
+                    hi_, y_ = T.ev(x, env, memo), T.ev(y, env, memo)
+                    if y_ == 0 or hi_ >= y_:
+                        raise T.Poison("divq raises #DE: RDX=%#x divisor=%#x at %s" % (hi_, y_, loc or "?"))
                 elif kind == "abs-min":
                     if T.ev(x, env, memo) == 1 << (p1 - 1):
                         raise T.Poison("abs(INT_MIN) with int_min_poison at %s" % (loc or "?"))
@@ -987,14 +991,24 @@ def judge_cmp_mixed(pred_math):
                 if u[1] == eb or (u[1] == 1 and u[3] == eb - 1) or (u[1] == eb - 1 and u[3] == 0):
                     continue
                 return UNDECIDED, "argument bits %s used outside a comparison" % T.show(u, 2, ctx.names), rule, None
-            if u[0] in ("icmp", "not", "and", "or", "xor", "select", "concat"):
+            if u[0] in ("icmp", "not", "select", "concat", "rep") or (u[0] in ("and", "or", "xor") and u[1] == 1):
                 stack.extend(x for x in u[2:] if isinstance(x, tuple))
                 continue
+            if u[0] == "xor" and all(x[0] != "const" or x[2] in (0, 1 << (u[1] - 1)) for x in u[2:]) and sum(
+                    1 for x in u[2:] if x[0] != "const") == 1:
+                # sign-bit flip of a value: still a function of (msb, order of the low parts)
+                stack.extend(x for x in u[2:] if isinstance(x, tuple))
+                continue
+            if eb <= 8:
+                break           # outside the fragment, but small enough to enumerate every (x, y)
             return UNDECIDED, "operator %s" % u[0], rule, None
+        else:
+            stack = None
+        exhaustive = stack is not None
         sx = inst.args[0][0] == "SI"      # x signed?
         M = (1 << eb) - 1
         H = 1 << (eb - 1)
-        lows = [0, 1, 2, H - 2, H - 1]
+        lows = list(range(H)) if exhaustive else [0, 1, 2, H - 2, H - 1]
         n = 0
         for mx in (0, 1):
             for my in (0, 1):
@@ -1117,9 +1131,13 @@ def fam_vdenom(vt, cfg):
     # value() returns the divisors
     i = Inst("vd_value", [("V", "b")], "V", "%s{b}.value()" % D, lambda c: c.args["b"])
     i.clause = "value()"
+    # the statement is about vectors of non-zero divisors
+    i.env_ok = lambda vals, names, vt=vt: all(
+        (vals[names.index("b")] >> (k * vt.eb)) & ((1 << vt.eb) - 1) for k in range(vt.n))
     I.append(i)
     i = Inst("bc_value", [("S", "d")], "V", "%s{%s{d}}.value()" % (D, DS), lambda c: c.pack([c.args["d"]] * c.vt.n))
     i.clause = "value()"
+    i.env_ok = lambda vals, names: vals[names.index("d")] != 0
     I.append(i)
     return I
 
@@ -1184,6 +1202,7 @@ def fam_sdenom(vt, cfg):
         I.append(i)
     i = Inst("sd_value", [("S", "b")], "S", "%s{b}.value()" % D, lambda c: c.args["b"])
     i.clause = "value()"
+    i.env_ok = lambda vals, names: vals[names.index("b")] != 0       # the statement is about non-zero d
     I.append(i)
     return I
 
@@ -1246,6 +1265,45 @@ def judge_numeq(ctx, inst, S):
         lanecheck.NUMEQ[0] = False
 
 
+def _ldexp_points(eb):
+    """paired (x, e) lane values for ldexp/scalbn: results on both sides of every range boundary and
+    subnormal results whose discarded bits are 0 1...1 below an odd kept bit (a scaling carried out in
+    more than one rounding step rounds those twice)"""
+    mb, bias, emin = (23, 127, -126) if eb == 32 else (52, 1023, -1022)
+    M = (1 << eb) - 1
+    pts = []
+
+    def flt(ex, mant):      # normal number 1.mant * 2^ex
+        return ((ex + bias) << mb) | (mant & ((1 << mb) - 1))
+    ones = (1 << mb) - 1
+    for ex in (0, -1, -5, -11, -30, emin // 2, emin + 1, emin, 3, bias):
+        for pbit in (1, 2, 3, 5, 11, 12, mb // 2, mb - 2, mb - 1):
+            mant = ones & ~(1 << pbit)
+            e = emin - ex - (pbit + 1)          # result needs pbit+1 bits dropped
+            pts.append({"a": flt(ex, mant), "e": e & M})
+            if ex in (-1, -11, emin):
+                pts.append({"a": flt(ex, mant) | (1 << (eb - 1)), "e": e & M})
+                pts.append({"a": flt(ex, mant), "e": (e - 1) & M})
+    for ex in (0, -3, emin, bias, bias - 1):
+        for mant in (0, ones):
+            x = flt(ex, mant)
+            for r in (emin - 1, emin, emin - mb, emin - mb - 1, emin - mb - 2, bias, bias + 1, bias - 1, 0, 1, -1):
+                pts.append({"a": x, "e": (r - ex) & M})
+    for sub in (1, 2, 3, ones, 1 << (mb - 1), (1 << (mb - 1)) | 1):
+        for e in (0, 1, -1, mb, mb + 1, bias, bias + mb, -emin, -emin + mb, -emin + mb + bias, 2 * bias, -mb):
+            pts.append({"a": sub, "e": e & M})
+    return pts
+
+
+def judge_ldexp(ctx, inst, S):
+    import lanecheck
+    lanecheck.EXTRA_POINTS[0] = _ldexp_points(ctx.vt.eb)
+    try:
+        return judge_numeq(ctx, inst, S)
+    finally:
+        lanecheck.EXTRA_POINTS[0] = None
+
+
 def judge_frexp_e(ctx, inst, S):
     """the exponent vector frexp stores through its pointer argument"""
     import lanecheck
@@ -1301,7 +1359,8 @@ def fam_cmathx(vt, cfg):
     add(i, judge=judge_frexp_e)
     for fn in ("ldexp", "scalbn"):
         add(Inst(fn, [("V", "a"), ("VI2", "e")], "V", "avel::%s(a, %s{pe})" % (fn, iv),
-                 lambda c: c.pack([T.op("spec:c_ldexp", eb, x, y) for x, y in zip(c.lanes("a"), c.lanes("e"))])))
+                 lambda c: c.pack([T.op("spec:c_ldexp", eb, x, y) for x, y in zip(c.lanes("a"), c.lanes("e"))])),
+            judge=judge_ldexp)
     return I
 
 
